@@ -422,7 +422,7 @@ def prim_value_fns(facts):
     return out
 
 
-@rule("W11", ["C01", "C02"], floor=60, doc="primitive values travel unmodified: the Serialize/Deserialize impls of the primitive and atomic types and the "
+@rule("W11", ["C01", "C02", "C04"], floor=60, doc="primitive values travel unmodified: the Serialize/Deserialize impls of the primitive and atomic types and the "
       "Serializer/Deserializer primitive helpers contain no arithmetic, bit manipulation or byte swapping on the value; bool is exactly 1/0 and `== 1`")
 def w11(facts, tier):
     for f in prim_value_fns(facts):
@@ -451,7 +451,7 @@ def w11(facts, tier):
             ok = any(x.get("k") == "Bin" and x["op"] == "Eq" and peel(x["r"]).get("int") == 1 for x in walk(f["body"]))
             if not ok:
                 bad.append("bool is not read as `byte == 1`")
-        yield ob(["C01", "C02"], "W11", key, "violation" if bad else "pass", where(f),
+        yield ob(["C01", "C02", "C04"], "W11", key, "violation" if bad else "pass", where(f),
                  f"{key}: value-altering construct(s) {sorted(set(bad))}: a primitive no longer round-trips / is no longer encoded as documented" if bad
                  else "value passes unmodified between memory and the byte sink")
 
